@@ -523,6 +523,7 @@ theorem own_step (s : State) (i : Input) (hi : Inv s) (h : Own s) (ha : Allowed 
   | inboundRead f request => exact own_inboundRead s f request h
   | responseDone f => exact h.mono rfl (fun _ x => x) (fun _ x => x)
   | responderWrites sid response => exact h.mono rfl (fun _ x => x) (fun _ x => x)
+  | clogged => exact h.mono rfl (fun _ x => x) (fun _ x => x)
 
 theorem reach_own (m : Option Nat) (s : State) (h : Reach m s) : Own s := by
   induction h with
